@@ -19,7 +19,8 @@ Mutators == {[m |-> "push", args |-> <<x>>] : x \in Vals} \cup {[m |-> "push_for
             \cup {[m |-> "pop", args |-> <<>>], [m |-> "flush", args |-> <<>>]}
 Observers == {[m |-> m, args |-> <<>>] : m \in {"capacity", "size", "is_empty", "is_full", "peek_oldest", "copy_oldest",
                                                 "peek_newest", "iter", "iter_len", "to_string"}}
-             \cup {[m |-> m, args |-> <<i>>] : m \in {"get", "get_mut", "copy"}, i \in 0..(Cap + 1)}
+             \cup {[m |-> m, args |-> <<i>>] : m \in {"get", "get_mut", "copy", "iter_skip", "iter_nth"}, i \in 0..(Cap + 1)}
+             \cup {[m |-> "iter_step", args |-> <<i>>] : i \in 1..(Cap + 1)} \cup {[m |-> "iter_last", args |-> <<>>]}
 Init == b = RingNew(Cap) /\ hist = <<>>
 Next == \E o \in Mutators : b' = RingOp(Kind, o.m, o.args, b).post /\ hist' = hist \o <<o>>
 Spec == Init /\ [][Next]_vars
